@@ -11,8 +11,11 @@ def mk_alloc(used, mx, limit):
     return Struct('Alloc', [Struct('System', []), Struct('Atomic', [used]), Struct('Atomic', [mx]), Struct('Atomic', [limit])])
 
 
+ALIGN = [1]       # alignment of the layouts handed to the allocator; harnesses may set another value around a call
+
+
 def layout(size):
-    return Struct('Layout', [size, 1])
+    return Struct('Layout', [size, ALIGN[0]])
 
 
 def state(a):
@@ -52,17 +55,23 @@ class OneStep(Harness):
         size, old = I.int('size', 'usize'), I.int('old_size', 'usize')
         ex.assume(z3.And(u <= BIG, size <= BIG, old <= BIG, m >= u, size >= 1, old >= 1))
         op = OPS[ex.choose(len(OPS), 'operation')]
+        align = [1, 8, 16][ex.choose(3, 'alignment of the layout')]
+        ALIGN[0] = align
         if op in ('dealloc',):
             ex.assume(size <= u)         # the block being freed is live
         if op == 'realloc':
             ex.assume(old <= u)
         a = mk_alloc(u, m, L)
         cell = Cell(a, 'alloc')
-        return [Ref(cell), op, size, old], {'cell': cell, 'u': u, 'm': m, 'L': L, 'size': size, 'old': old, 'op': op}
+        return [Ref(cell), op, size, old], {'cell': cell, 'u': u, 'm': m, 'L': L, 'size': size, 'old': old, 'op': op, 'align': align}
 
     def entry(self, ex, args, ctx):
         a, op, size, old = args
-        return call_op(ex, a, op, size, old)
+        ALIGN[0] = ctx['align']
+        try:
+            return call_op(ex, a, op, size, old)
+        finally:
+            ALIGN[0] = 1
 
     def classify(self, outcome):
         if outcome[0] == 'panic':
@@ -99,6 +108,7 @@ class OneStep(Harness):
     def case(self, ctx, vals, label):
         c = Harness.case(self, ctx, vals, label)
         c['inputs']['op'] = ctx['op']
+        c['inputs']['align'] = ctx['align']
         return c
 
     def prefer(self, ctx):
@@ -108,7 +118,7 @@ class OneStep(Harness):
         u, L, size, old = (int(inputs[k]) for k in ('used', 'limit', 'size', 'old_size'))
         if max(u, size, old) > 1 << 24 or int(inputs['peak']) != u:
             return []
-        return [{'mode': 'alloc_step', 'limit': L, 'used': u, 'op': inputs['op'], 'size': size, 'old': old}]
+        return [{'mode': 'alloc_step', 'limit': L, 'used': u, 'op': inputs['op'], 'size': size, 'old': old, 'align': int(inputs.get('align', 1))}]
 
     def judge(self, inputs, label, obs):
         u, L, size, old = (int(inputs[k]) for k in ('used', 'limit', 'size', 'old_size'))
